@@ -320,10 +320,11 @@ def res : Tm → RS → Tm × RS
     let (tbl, rs) := rs.endScope
     (.whileS c' tbl b', rs)
   | .forS _ dIter d x iter _ b, rs =>
-    -- `for_`: the hidden `$iter` and the item are declared *before* the iterable is resolved
+    -- `for_`: the iterable is resolved inside the loop's scope but *before* the hidden `$iter` and the item are
+    -- declared (the compiler's order; repo commit 22c8429 — until then the declarations came first, finding D31)
     let rs := rs.beginScope
-    let rs := (rs.declareDefine dIter ITER_VAR).declareDefine d x
     let (iter', rs) := res iter rs
+    let rs := (rs.declareDefine dIter ITER_VAR).declareDefine d x
     let (b', rs) := res b rs.beginScope
     let (tblB, rs) := rs.endScope
     let (tblF, rs) := rs.endScope
@@ -332,7 +333,8 @@ def res : Tm → RS → Tm × RS
     let (b', rs) := res b rs.beginScope
     let (tblB, rs) := rs.endScope
     let rs := rs.beginScope
-    let rs := (rs.declareDefine d x).resolveVar o cn
+    -- `catch`: the class is looked up before the catch variable is declared (repo commit b3a40ba)
+    let rs := (rs.resolveVar o cn).declareDefine d x
     let (c', rs) := res c rs.beginScope
     let (tblCB, rs) := rs.endScope
     let (tblC, rs) := rs.endScope
